@@ -62,6 +62,8 @@ type Run struct {
 	trace  []Decision
 	pc     []*Term
 	pcHash [20]byte
+	pcFP   bool
+	useAlt bool
 
 	globals map[*ssa.Global]*Value
 	funcs   map[string]bool
@@ -187,6 +189,108 @@ func (r *Run) addPC(t *Term) {
 	h.Write([]byte(t.Key()))
 	copy(r.pcHash[:], h.Sum(nil))
 	r.W.solver.Assert(t)
+	if hasFP(t) {
+		r.pcFP = true
+	}
+	if r.useAlt {
+		r.W.alt.Assert(t)
+	} else if r.pcFP && r.W.ex.fpAltOn() {
+		r.switchAlt()
+	}
+}
+
+// Floating-point fallback: z3 is the default back end because it is the fastest
+// on bit-vector queries, but it times out on many FP queries that cvc5 decides
+// at once. When a query that involves FP terms comes back unknown from z3 the
+// path is re-asserted on a cvc5 process kept beside the primary solver and the
+// query is repeated there; once that has helped, later paths switch as soon as
+// their path condition contains an FP term.
+func hasFP(t *Term) bool {
+	seen := map[*Term]bool{}
+	var walk func(t *Term) bool
+	walk = func(t *Term) bool {
+		if t == nil || seen[t] {
+			return false
+		}
+		seen[t] = true
+		if t.S == SFP {
+			return true
+		}
+		for _, a := range t.Args {
+			if walk(a) {
+				return true
+			}
+		}
+		return false
+	}
+	return walk(t)
+}
+
+func (r *Run) sol() *Solver {
+	if r.useAlt {
+		return r.W.alt
+	}
+	return r.W.solver
+}
+
+func (r *Run) canAlt(extra ...*Term) bool {
+	if r.useAlt || r.W.solver.Kind == "cvc5" || r.W.ex.NoFPFallback {
+		return false
+	}
+	if r.pcFP {
+		return true
+	}
+	for _, t := range extra {
+		if hasFP(t) {
+			return true
+		}
+	}
+	return false
+}
+
+func (r *Run) switchAlt() bool {
+	w := r.W
+	if w.alt == nil {
+		s, err := NewSolver("cvc5", w.ex.B.SolverMs)
+		if err != nil {
+			return false
+		}
+		w.alt = s
+	}
+	w.alt.Push()
+	for _, t := range r.pc {
+		w.alt.Assert(t)
+	}
+	r.useAlt = true
+	return true
+}
+
+func (r *Run) solverCheck(t *Term) SatResult {
+	if !r.useAlt && r.W.ex.fpAltOn() && r.canAlt(t) {
+		r.switchAlt()
+	}
+	res := r.sol().Check(t)
+	if res == Unknown && r.canAlt(t) && r.switchAlt() {
+		res = r.W.alt.Check(t)
+		if res != Unknown {
+			r.W.ex.setFPAlt()
+		}
+	}
+	return res
+}
+
+func (r *Run) solverCheckModel(extra ...*Term) (SatResult, map[string]string) {
+	if !r.useAlt && r.W.ex.fpAltOn() && r.canAlt(extra...) {
+		r.switchAlt()
+	}
+	res, model := r.sol().CheckWithModel(r.inputs, extra...)
+	if res == Unknown && r.canAlt(extra...) && r.switchAlt() {
+		res, model = r.W.alt.CheckWithModel(r.inputs, extra...)
+		if res != Unknown {
+			r.W.ex.setFPAlt()
+		}
+	}
+	return res, model
 }
 
 func (r *Run) check(t *Term) SatResult {
@@ -194,9 +298,9 @@ func (r *Run) check(t *Term) SatResult {
 	if v, ok := r.W.ex.cacheGet(key); ok {
 		return v
 	}
-	res := r.W.solver.Check(t)
+	res := r.solverCheck(t)
 	if res == Unknown {
-		r.W.ex.noteUnknown(r.W.solver.LastErr)
+		r.W.ex.noteUnknown(r.sol().LastErr)
 	}
 	r.W.ex.cachePut(key, res)
 	return res
@@ -303,20 +407,20 @@ func (r *Run) assertCond(g *G, c Bool, label string) {
 		return
 	}
 	r.assertsSolver++
-	res, model := r.W.solver.CheckWithModel(r.inputs, Not(c.T))
+	res, model := r.solverCheckModel(Not(c.T))
 	switch res {
 	case Unsat:
 		return
 	case Unknown:
-		r.W.ex.noteUnknown(r.W.solver.LastErr)
-		r.fail(OutInconclusive, "solver unknown on assertion "+label+": "+r.W.solver.LastErr)
+		r.W.ex.noteUnknown(r.sol().LastErr)
+		r.fail(OutInconclusive, "solver unknown on assertion "+label+": "+r.sol().LastErr)
 	case Sat:
 		r.violateWith(g, label, model)
 	}
 }
 
 func (r *Run) violate(g *G, label string, _ map[string]string) {
-	res, model := r.W.solver.CheckWithModel(r.inputs)
+	res, model := r.solverCheckModel()
 	if res == Unsat {
 		r.fail(OutInfeasible, "path condition unsat at violation")
 	}
